@@ -205,6 +205,15 @@ class C04Hook:
                         ctx.fail('state-under-wrong-mds', f'{key}: part SourceMds={p.get("mds")}, descriptor belongs to {mds}', case)
                 for d in p.get('descr', []):
                     reported_d.setdefault(d.Handle, []).append((d, p['mod'], p['parent'], p['mds']))
+                    if p['mod'] in ('Crt', 'Upt'):
+                        # a description modification part carries the changed states of its descriptor, all of them
+                        in_part = sorted((st.Handle if st.is_context_state else st.DescriptorHandle) for st in p['states'])
+                        changed = sorted([h for h, c in snap['states'].items() if h == d.Handle and prev['states'].get(h) != c]
+                                         + [h for h, c in snap['context_states'].items()
+                                            if c['dh'] == d.Handle and prev['context_states'].get(h) != c])
+                        if in_part != changed:
+                            ctx.fail('description-part-states-incomplete',
+                                     f'{p["mod"]} part of {d.Handle} carries states {in_part}, the commit changed {changed}', case)
         # truthful: reported values = committed values
         for key, (st, kind, _mds) in reported_s.items():
             cur = snap['states'].get(key)
@@ -303,8 +312,55 @@ class TracedLock:
         self.release()
 
 
+class FakeSubscriber:
+    """Stands in for a subscription: `delivered` is logged when the notification has really been handed over.
+    The first delivery is slow: it completes only when the harness releases it (or after `max_wait` s)."""
+    notify_to_address = 'http://127.0.0.1:1/slow'
+    is_valid = True
+
+    def __init__(self, log, slow_first, max_wait=3.6):
+        self.log, self.slow_first, self.max_wait = log, slow_first, max_wait
+        self.release = threading.Event()
+        self.started = threading.Event()
+        self.n = 0
+        self.received = []
+
+    def _version(self, body_node):
+        return int(body_node.get('MdibVersion', '0'))
+
+    def send_notification_report(self, body_node, action):
+        import time as _t
+        self.n += 1
+        self.started.set()
+        if self.slow_first and self.n == 1:
+            self.release.wait(self.max_wait)
+        else:
+            _t.sleep(0.01)
+        self.received.append(self._version(body_node))
+        self.log.append(('delivered', None))
+
+    async def async_send_notification_report(self, body_node, action):
+        import asyncio
+        import time as _t
+        self.n += 1
+        self.started.set()
+        if self.slow_first and self.n == 1:
+            t0 = _t.time()
+            while not self.release.is_set() and _t.time() - t0 < self.max_wait:
+                await asyncio.sleep(0.02)
+        else:
+            await asyncio.sleep(0.01)
+        self.received.append(self._version(body_node))
+        self.log.append(('delivered', None))
+
+
+def install_fake_subscriber(p, fake):
+    for mgr in p.device._subscriptions_managers.values():  # noqa: SLF001
+        mgr._get_subscriptions_for_action = lambda action, _f=fake: [_f]  # noqa: SLF001
+
+
 def trace_writer(sync=True):
-    """One real transaction with traced locks: the sequence of lock ops, version write and sends."""
+    """One real transaction with traced locks and a (slow) subscriber: lock ops, version write, completed deliveries."""
     p = lb.Provider(start=True, role_providers=False, sync=sync)
     try:
         m = p.mdib
@@ -326,22 +382,26 @@ def trace_writer(sync=True):
         v = m.mdib_version
         m.__class__ = Traced
         m.__dict__['_v'] = v
-        for name, mgr in p.device._subscriptions_managers.items():  # noqa: SLF001
-            orig = mgr.send_to_subscribers
-
-            def wrapped(payload, action, vg, _orig=orig):
-                log.append(('sendBegin', None))
-                try:
-                    return _orig(payload, action, vg)
-                finally:
-                    log.append(('sendEnd', None))
-            mgr.send_to_subscribers = wrapped
+        fake = FakeSubscriber(log, slow_first=not sync)     # the async manager is traced with a subscriber slower than any internal wait
+        install_fake_subscriber(p, fake)
         h = tx.World(p, __import__('random').Random(1)).states_of_kind('metric')[0]
-        with m.metric_state_transaction() as mgr:
-            st = mgr.get_state(h)
-            if st.MetricValue is None:
-                st.mk_metric_value()
-            st.MetricValue.Value = Decimal(1)
+
+        def commit():
+            with m.metric_state_transaction() as mgr:
+                st = mgr.get_state(h)
+                if st.MetricValue is None:
+                    st.mk_metric_value()
+                st.MetricValue.Value = Decimal(1)
+            log.append(('commitReturned', None))
+        t = threading.Thread(target=commit, daemon=True)
+        t.start()
+        t.join(fake.max_wait + 0.4 if not sync else 5)     # a correct writer is still inside its send here (async case)
+        fake.release.set()
+        t.join(10)
+        import time as _t
+        t0 = _t.time()
+        while not any(e == 'delivered' for e, _ in log) and _t.time() - t0 < 5:
+            _t.sleep(0.02)
         return list(log)
     finally:
         p.stop()
@@ -356,7 +416,7 @@ def prog_to_lean(name, log):
             acts.append(f'.rel {0 if arg == "tr" else 1}')
         elif ev == 'setVersion':
             acts.append('.incVer')
-        elif ev == 'sendEnd':
+        elif ev == 'delivered':
             acts.append('.send')
     return f'def {name} : List Act := [{", ".join(acts)}]\n'
 
@@ -406,17 +466,62 @@ def concurrent_writers(ctx, sync, n_threads, n_tx):
         p.stop()
 
 
+def slow_subscriber_order(ctx, sync):
+    """Two sequential commits, the subscriber is slow on the first notification: it must still receive [v1, v2]."""
+    p = lb.Provider(start=True, role_providers=False, sync=sync)
+    try:
+        fake = FakeSubscriber([], slow_first=True)
+        install_fake_subscriber(p, fake)
+        h = tx.World(p, ctx.subrng('slow')).states_of_kind('metric')[0]
+
+        def commits():
+            for i in (1, 2):
+                with p.mdib.metric_state_transaction() as mgr:
+                    st = mgr.get_state(h)
+                    if st.MetricValue is None:
+                        st.mk_metric_value()
+                    st.MetricValue.Value = Decimal(i)
+        t = threading.Thread(target=commits, daemon=True)
+        t.start()
+        t.join(fake.max_wait + 0.6)
+        fake.release.set()
+        t.join(15)
+        import time as _t
+        t0 = _t.time()
+        while len(fake.received) < 2 and _t.time() - t0 < 6:
+            _t.sleep(0.05)
+        case = {'slow_subscriber': True, 'sync': sync, 'received_versions': list(fake.received)}
+        if fake.received != sorted(fake.received) or len(fake.received) != 2:
+            ctx.fail('reports-out-of-version-order', f'slow subscriber received MdibVersions {fake.received}', case)
+        ctx.case(case, nontrivial=True)
+        ctx.count('slow-subscriber-runs')
+    finally:
+        p.stop()
+
+
 def run(ctx):
     c02.run(ctx, hook_cls=C04Hook, prop='C04', drv='drv_c04')
     for sync in (True, False):
         concurrent_writers(ctx, sync, ctx.n(4, 8), ctx.n(15, 100))
+    if ctx.tier == 'thorough' or ctx.proof_problems:
+        for sync in (True, False):
+            slow_subscriber_order(ctx, sync)
+
+
+def search(ctx):
+    for sync in (False, True):
+        slow_subscriber_order(ctx, sync)
+    if not ctx.failures:
+        c02.search(ctx, hook_cls=C04Hook)
 
 
 def replay(ctx, obj):
     lb.quiet()
     case = obj['case']
     ctx2 = core.Ctx('C04', 'quick', 0)
-    if 'concurrent_writers' in case:
+    if 'slow_subscriber' in case:
+        slow_subscriber_order(ctx2, case['sync'])
+    elif 'concurrent_writers' in case:
         concurrent_writers(ctx2, case['sync'], case['concurrent_writers'], case['transactions_each'])
     else:
         c02.run_history(ctx2, case.get('mdib', c02.MDIBS[0]), ctx2.subrng('replay'), 0, [C04Hook(ctx2)], scripts=case['history'])
